@@ -152,7 +152,9 @@ class ManifestMachine(FormatMachine):
         arch = op.get("arch")
         prop = "C12"
         if kind == "fail" and arg.startswith("arch:") and self.ATTR == "rpms":
-            prop = "C10"
+            # C10 ("source and unknown arches are refused") and C12 ("a call with an unknown arch ... raises and changes
+            # nothing") both cover it: reported by the one the run focuses on
+            prop = "C12" if self.cfg.get("focus") == "C12" else "C10"
         if raised is not None:
             CTX.fault("F5.refused_api_call")
             self.count(prop, ["refused", self.FORMAT, arg if kind != "ok" else "?", len(payload)])
@@ -168,8 +170,8 @@ class ManifestMachine(FormatMachine):
                                 {"diff": d, "why": arg})
             return "refused:" + exc_class(raised)
         if kind == "fail":
-            if prop == "C10":
-                raise Violation("C10", "C10.source_or_unknown_arch_refused", "bad-arch-accepted/%s/%s" % (self.FORMAT, arg), {"arch": arch})
+            if arg.startswith("arch:") and self.ATTR == "rpms":
+                raise Violation(prop, "%s.source_or_unknown_arch_refused" % prop, "bad-arch-accepted/%s/%s" % (self.FORMAT, arg), {"arch": arch})
             raise Violation("C12", "C12.bad_call_refused", "bad-call-accepted/%s/%s" % (self.FORMAT, arg), {"why": arg})
         if kind == UNSPEC:
             # property silent: follow the observation
